@@ -45,12 +45,13 @@ RULE = ('sequences of 1-9 blocks of compatible raster-aligned events (block/sinc
         'extended trapezoids also with tt[0]>0, arbitrary gradients, ADCs, triggers, labels, delays, plain-float delays) on 5 '
         'raster families (8 in total, three with pairwise different rasters) with random dead/ring-down times; 50% of the histories '
         'overwrite 1-3 blocks with set_block AFTER decoding consumers warmed the block cache (new events, or the same events / the '
-        'same pre-registered ids / a pure delay with only the padding changed); event counters of duration(); padded '
+        'same pre-registered ids / a pure delay with only the padding changed); event counters of duration(); 30% of the sequences are created with set_block under gapped, non-ascending block numbers '
+        '(timeline = insertion order); padded '
         'sequences are written and re-read. Oracle (exact Fractions): stored duration == latest end over the input events == '
         'pp.calc_duration(*events) == pp.calc_duration(get_block); duration() total and count; every ADC sample time, RF '
         'centre time and gradient corner time of waveforms_and_times / rf_times / adc_times (also with time_range windows that start in the first block, at 0 and at random, incl. waveforms(time_range)) and '
         'the t_* outputs of calculate_kspace == prefix sum of the durations + the in-block time; TotalDuration and the '
-        '[BLOCKS] column of the written file; durations after re-reading. Correspondence: set_block_duration, calc_duration, '
+        '[BLOCKS] column of the written file; durations after re-reading, also into an object created for another block raster (x2, /2, x1.5, x4) and written again: the new file\'s [BLOCKS] integers x its BlockDurationRaster and TotalDuration must still be the stored durations. Correspondence: set_block_duration, calc_duration, '
         'starts, adc/rf times, gradient piece ends and the [BLOCKS] integers of the extracted Coq model. '
         'non-trivial = at least 2 blocks with >= 2 timed events each or an overwritten block')
 TRUSTED = ['calc_rf_center and the in-event time vectors (rf.t, grad.tt) are taken from the implementation',
@@ -93,6 +94,13 @@ def gen_case(rng):
         # events handed over by pre-registered library id (set_block then takes the id and registers nothing)
         b['ids'] = rng.random() < 0.3
     case = {'sys': s, 'alt': None, 'blocks': blocks, 'set_blocks': [], 'padded': padded}
+    if rng.random() < 0.3:
+        # blocks created with set_block under arbitrary (gapped, non-ascending) block numbers: the timeline is the
+        # order in which the blocks were put into the sequence, not the numerical order of their ids
+        order = rng.sample(range(1, nb + 6), nb)
+        if nb >= 2 and order == sorted(order):
+            order[0], order[-1] = order[-1], order[0]
+        case['order'] = order
     if rng.random() < 0.5:
         for _ in range(rng.randint(1, 3)):
             idx = rng.randint(1, nb)
@@ -178,10 +186,16 @@ def build(case):
                 give_ids(seq, evs)
             if b.get('float') is not None:
                 evs.append(float(b['float']))
-            seq.add_block(*evs)
-            inputs[i + 1] = evs
+            if case.get('order'):
+                seq.set_block(case['order'][i], *evs)
+                inputs[case['order'][i]] = evs
+            else:
+                seq.add_block(*evs)
+                inputs[i + 1] = evs
         for ent in case['set_blocks']:
             idx, b = ent[0], ent[1]
+            if case.get('order'):
+                idx = case['order'][idx - 1]           # position in the timeline -> block number
             warm_up(seq, ent[2] if len(ent) > 2 else [])
             if 'repad' in b:
                 # the very same event objects (with their ids when they have some) and another explicit delay
@@ -449,6 +463,39 @@ def evaluate(ctx, case, do_kspace=False):
                     ta2, _ = s2.adc_times()
                     cmp_list('reread-adc_times', list(ta2), adc, fails, scale)
                 ctx.count('file.checked')
+                # the same file loaded into an object that was created for ANOTHER block raster, and written again: the
+                # durations, the BlockDurationRaster of the new file and its [BLOCKS] integers must still describe them
+                r2 = ctx_rng(case)
+                foreign = dict(case['sys'])
+                foreign['block'] = float(F(case['sys']['block']) * r2.choice([2, Fraction(1, 2), Fraction(3, 2), 4]))
+                s3 = pp.Sequence(tg.make_opts(foreign))
+                fn2 = os.path.join(dname, 'b.seq')
+                with warnings.catch_warnings():
+                    warnings.simplefilter('ignore')
+                    s3.read(fn)
+                    if list(s3.block_events) == ids:
+                        for i in ids:
+                            if not close(F(s3.block_durations[i]), stored[i], scale):
+                                fails.append(('foreign-read-duration', {'block': i, 'got': s3.block_durations[i],
+                                                                        'stored': float(stored[i]), 'object_raster': foreign['block']}))
+                                break
+                        d3, n3, _ = s3.duration()
+                        if n3 != len(ids) or not close(F(d3), total, scale):
+                            fails.append(('foreign-read-duration()', {'got': [float(d3), n3], 'expected': float(total)}))
+                    else:
+                        fails.append(('foreign-read-ids', {'got': list(s3.block_events)}))
+                    s3.write(fn2, create_signature=False)
+                ftotal3, bdr3, cols3 = file_facts(fn2)
+                if bdr3 is None or ftotal3 is None or abs(ftotal3 - total) > abs(total) * Fraction(6, 10 ** 10) + Fraction(1, 10 ** 12):
+                    fails.append(('foreign-rewrite-TotalDuration', {'file': str(ftotal3), 'expected': float(total)}))
+                else:
+                    for i in ids:
+                        if i not in cols3 or not close(cols3[i] * bdr3, stored[i], scale):
+                            fails.append(('foreign-rewrite-BLOCKS-duration', {
+                                'block': i, 'column': cols3.get(i), 'file_raster': float(bdr3), 'stored': float(stored[i]),
+                                'object_raster': foreign['block']}))
+                            break
+                ctx.count('file.foreign_raster_roundtrip')
             except AssertionError as e:
                 fails.append(('write-asserts', {'exception': repr(e)}))
             except Exception as e:  # noqa: BLE001
@@ -462,6 +509,7 @@ def evaluate(ctx, case, do_kspace=False):
     ctx.count('blocks.%s' % ('1' if len(ids) == 1 else '2-4' if len(ids) <= 4 else '5-9'))
     ctx.count('history.' + ('overwritten' if case['set_blocks'] else 'append-only'))
     ctx.count('padded.' + str(case['padded']))
+    ctx.count('numbering.' + ('arbitrary' if case.get('order') else 'add_block'))
     for d in ds:
         for k in ('rf', 'gx', 'gy', 'gz', 'adc'):
             if d[k] is not None:
@@ -626,7 +674,8 @@ def corpus():
 def run(ctx):
     n = {'quick': 450, 'thorough': 15000}[ctx.tier]
     rng = ctx.rng('sequences')
-    cases = corpus() + [gen_case(rng) for _ in range(n)]
+    import itertools
+    cases = itertools.chain(corpus(), (gen_case(rng) for _ in range(n)))     # lazily: time-boxed runs
     pending = []
     for i, case in enumerate(cases):
         if ctx.out_of_time():
